@@ -82,8 +82,10 @@ def setup(ctx):
     ctx.info['digest_entries'] = len(canon['digest_before'])
     ctx.info['alphabet_size'] = len(events)
     ctx.info['canonical_history'] = list(X.CANON)
+    _state['fresh_pristine_modules'] = canon.get('pristine')
+    ctx.info['lazy_placeholders'] = canon.get('placeholders', [])
     if ctx.shard == 0 and not ctx.replay:
-        _state['pristine'] = X.pristine_import()
+        _state['pristine'] = X.pristine_import(expected=_state['fresh_pristine_modules'])
 
 
 def _canon_value(name):
@@ -236,7 +238,20 @@ def check_history(ctx, case):
 def check_walk(ctx, case):
     fine = case['abstraction'] == 'fine'
     if 'pristine' not in _state:
-        _state['pristine'] = X.pristine_import()
+        _state['pristine'] = X.pristine_import(expected=_state.get('fresh_pristine_modules'))
+    # the pending/loaded distinction rests on the identity of the objects the import left in the class
+    # dictionaries; without any such object the abstraction cannot see laziness at all
+    if not X.placeholder_names():
+        ctx.harness_error('no descriptor found in the class dictionaries of Element/Isotope/Ion under any lazy '
+                          'attribute name right after `import periodictable`: the abstract loader state is blind')
+    missing = [n for n, found in X.trace_anchors().items() if not found]
+    if missing:
+        # optional instrumentation (private code objects found by name): the loader trace is poorer, the
+        # fired.* counters then come from the abstract state (pending before the event, not pending after)
+        for n in missing:
+            ctx.count('anchor_missing.trace.' + n)
+        ctx.note('loader trace: private code objects %s not found in this tree; which route fired which loader is '
+                 'read off the abstract state instead' % ', '.join(missing))
     n0 = _state['canon_after'][0]
     ctx.evaluated(1, 'canonical-stability')
     if n0:
